@@ -226,6 +226,10 @@ def liftErr {α : Type} : Except PyErr α → Except FmtErr α
   | .ok a => .ok a
   | .error e => .error (.raised e)
 
+/-- `dict(zip(args.keys(), map(escape, args.values())))`, one item -/
+def escapeKV (impl : Impl) (esc : Bool → Str → Str) (p : Str × Arg) : Except PyErr (Str × Str) :=
+  (escapeOp impl esc true p.2).map fun t => (p.1, t)
+
 /-- `Markup.__mod__`: every operand goes through `escape` first (an error there wins),
     then `str.__mod__` on the fragment; the result is a `Markup` -/
 def mod (impl : Impl) (esc : Bool → Str → Str) (fmt : Str) (a : ModArg) : Except FmtErr (Ty × Str) :=
@@ -242,7 +246,7 @@ def mod (impl : Impl) (esc : Bool → Str → Str) (fmt : Str) (a : ModArg) : Ex
         let r ← fmtPos ps ts
         pure (.markup, r)
     | .map kvs => do
-        let ts ← liftErr (kvs.mapM fun (k, o) => (escapeOp impl esc true o).map fun t => (k, t))
+        let ts ← liftErr (kvs.mapM (escapeKV impl esc))
         let r ← fmtMap ps ts
         pure (.markup, r)
 
